@@ -48,7 +48,12 @@ func (s *store) storedHash(rng *rand.Rand) string {
 		return s.genesis
 	case 1, 2:
 		return pick(rng, s.stale)
-	case 3, 4:
+	case 3:
+		return pick(rng, s.orphan)
+	case 4:
+		if len(s.orphanLinked) > 0 {
+			return pick(rng, s.orphanLinked)
+		}
 		return pick(rng, s.orphan)
 	case 5:
 		return s.tip
@@ -63,7 +68,7 @@ func (s *store) hashValues(rng *rand.Rand) []string {
 	vs := []string{
 		// stored
 		s.tip, s.genesis, pick(rng, s.longest), pick(rng, s.longest), s.longestAt(1),
-		pick(rng, s.stale), pick(rng, s.stale), pick(rng, s.orphan), pick(rng, s.orphan), s.orphanRoot,
+		pick(rng, s.stale), pick(rng, s.stale), pick(rng, s.orphan), pick(rng, s.orphan), s.orphanRoot, s.linkedA, s.linkedB,
 		// unknown but well formed
 		randHex(rng, 64), strings.Repeat("0", 64), strings.Repeat("f", 64),
 		// mutated stored hashes
@@ -197,10 +202,11 @@ func (s *store) hashListBodies(rng *rand.Rand) [][]byte {
 	s1, s2 := pick(rng, s.stale), pick(rng, s.stale)
 	o1, o2 := pick(rng, s.orphan), pick(rng, s.orphan)
 	unk := randHex(rng, 64)
-	all := append(append(append([]string{}, s.longest...), s.stale...), s.orphan...)
+	all := append(append(append(append([]string{}, s.longest...), s.stale...), s.orphan...), s.orphanLinked...)
 	out := [][]byte{
 		jsonList(s.tip), jsonList(l1), jsonList(l1, l2), jsonList(s.tip, s1), jsonList(s1, s2), jsonList(s1), jsonList(o1), jsonList(o1, o2), jsonList(s.orphanRoot),
-		jsonList(s.orphanRoot, s.orphanRoot2), jsonList(s.orphanRoot, o1), jsonList(s.tip, o1), jsonList(s1, o1), jsonList(s.longestAt(1)), jsonList(s.longestAt(1), s.longestAt(2)),
+		jsonList(s.orphanRoot, s.orphanRoot2), jsonList(s.linkedA), jsonList(s.linkedA, s.linkedB), jsonList(s.linkedA, s.tip), jsonList(s.linkedB, s1), jsonList(s.linkedA, o1),
+		jsonList(s.orphanRoot, o1), jsonList(s.tip, o1), jsonList(s1, o1), jsonList(s.longestAt(1)), jsonList(s.longestAt(1), s.longestAt(2)),
 		jsonList(s.genesis), jsonList(s.genesis, s.genesis), jsonList(s.tip, s.genesis), jsonList(s.genesis, s.tip), jsonList(s1, s.genesis), jsonList(o1, s.genesis),
 		jsonList(unk), jsonList(s.tip, unk), jsonList(unk, s.tip), jsonList(s.genesis, unk), jsonList(""), jsonList("", ""), jsonList("a"), jsonList(strings.ToUpper(s.tip)),
 		jsonList(reverseHexBytes(s.tip)), jsonList(s.tip[:63]), jsonList(s.tip + "0"), jsonList("' OR '1'='1"), jsonList("ハッシュ"), jsonList("\x00"), jsonList(randHex(rng, 10240)),
